@@ -1,0 +1,575 @@
+//! Simulation seam for file I/O (only compiled with `--features verif-sim`).
+//!
+//! `simio::File` wraps `std::fs::File`. Every operation gets a global event
+//! sequence number, consults a fault plan (file named by `RBP_SIM_PLAN`) and
+//! appends one line to a trace (file named by `RBP_SIM_TRACE`).
+//! With neither variable set every call is a plain pass-through.
+//!
+//! The plan is data only: there is no randomness and no clock in here, so a
+//! plan plus a data directory is one exactly repeatable execution.
+use std::collections::HashMap;
+use std::io::{self, Read, Seek, SeekFrom, Write};
+use std::path::Path;
+use std::sync::{Mutex, OnceLock};
+
+#[derive(Clone, Copy, PartialEq, Eq, Debug)]
+enum Class {
+    Blk,
+    Xor,
+    Out,
+}
+
+impl Class {
+    fn of(name: &str) -> Class {
+        if name == "xor.dat" {
+            Class::Xor
+        } else if name.starts_with("blk") && name.ends_with(".dat") {
+            Class::Blk
+        } else {
+            Class::Out
+        }
+    }
+    fn tag(self) -> &'static str {
+        match self {
+            Class::Blk => "blk",
+            Class::Xor => "xor",
+            Class::Out => "out",
+        }
+    }
+}
+
+#[derive(Clone, Copy)]
+struct PointFault {
+    errno: i32,
+    after: Option<u64>,
+}
+
+#[derive(Default)]
+struct Plan {
+    knobs: HashMap<String, usize>,
+    chunk_blk: Vec<usize>,
+    chunk_xor: Vec<usize>,
+    wshort: Vec<usize>,
+    weintr: u64,
+    fdmax: Option<usize>,
+    fails: HashMap<u64, PointFault>,
+    limits: HashMap<String, u64>,
+    crash: Option<(u64, Option<u64>)>,
+    delay: Option<(String, u64, u64)>,
+}
+
+struct State {
+    active: bool,
+    plan: Plan,
+    trace: Option<std::fs::File>,
+    seq: u64,
+    reads_blk: usize,
+    reads_xor: usize,
+    writes: u64,
+    open_blk: usize,
+    // sticky write failure per output file name (a full disk stays full)
+    broken: HashMap<String, i32>,
+}
+
+fn bad_plan(line: &str) -> ! {
+    eprintln!("simio: bad plan directive: {}", line);
+    std::process::exit(99);
+}
+
+fn parse_list(s: &str, line: &str) -> Vec<usize> {
+    let v: Vec<usize> = s
+        .split(',')
+        .map(|x| x.parse::<usize>().unwrap_or_else(|_| bad_plan(line)))
+        .collect();
+    if v.is_empty() || v.iter().any(|x| *x == 0) {
+        bad_plan(line);
+    }
+    v
+}
+
+fn load_plan(path: &str) -> Plan {
+    let text = std::fs::read_to_string(path).unwrap_or_else(|_| bad_plan(path));
+    let mut plan = Plan::default();
+    for line in text.lines() {
+        let line = line.trim();
+        if line.is_empty() || line.starts_with('#') {
+            continue;
+        }
+        let t: Vec<&str> = line.split_whitespace().collect();
+        let num = |i: usize| -> u64 {
+            t.get(i)
+                .and_then(|x| x.parse::<u64>().ok())
+                .unwrap_or_else(|| bad_plan(line))
+        };
+        match t[0] {
+            "knob" if t.len() == 3 => {
+                plan.knobs.insert(t[1].to_string(), num(2) as usize);
+            }
+            "chunk" if t.len() == 3 => match t[1] {
+                "blk" => plan.chunk_blk = parse_list(t[2], line),
+                "xor" => plan.chunk_xor = parse_list(t[2], line),
+                _ => bad_plan(line),
+            },
+            "wshort" if t.len() == 2 => plan.wshort = parse_list(t[1], line),
+            "weintr" if t.len() == 2 => {
+                plan.weintr = num(1);
+                if plan.weintr < 2 {
+                    bad_plan(line);
+                }
+            }
+            "fdmax" if t.len() == 2 => plan.fdmax = Some(num(1) as usize),
+            "fail" if t.len() == 3 => {
+                plan.fails.insert(
+                    num(1),
+                    PointFault {
+                        errno: num(2) as i32,
+                        after: None,
+                    },
+                );
+            }
+            "fail" if t.len() == 5 && t[3] == "after" => {
+                plan.fails.insert(
+                    num(1),
+                    PointFault {
+                        errno: num(2) as i32,
+                        after: Some(num(4)),
+                    },
+                );
+            }
+            "limit" if t.len() == 3 => {
+                plan.limits.insert(t[1].to_string(), num(2));
+            }
+            "crash" if t.len() == 2 => plan.crash = Some((num(1), None)),
+            "crash" if t.len() == 4 && t[2] == "after" => plan.crash = Some((num(1), Some(num(3)))),
+            "delay" if t.len() == 4 => plan.delay = Some((t[1].to_string(), num(2), num(3))),
+            _ => bad_plan(line),
+        }
+    }
+    plan
+}
+
+fn state() -> &'static Mutex<State> {
+    static STATE: OnceLock<Mutex<State>> = OnceLock::new();
+    STATE.get_or_init(|| {
+        let plan_path = std::env::var("RBP_SIM_PLAN").ok();
+        let trace_path = std::env::var("RBP_SIM_TRACE").ok();
+        let plan = match &plan_path {
+            Some(p) => load_plan(p),
+            None => Plan::default(),
+        };
+        let trace = trace_path.as_ref().map(|p| {
+            std::fs::OpenOptions::new()
+                .create(true)
+                .append(true)
+                .open(p)
+                .unwrap_or_else(|_| bad_plan(p))
+        });
+        Mutex::new(State {
+            active: plan_path.is_some() || trace_path.is_some(),
+            plan,
+            trace,
+            seq: 0,
+            reads_blk: 0,
+            reads_xor: 0,
+            writes: 0,
+            open_blk: 0,
+            broken: HashMap::new(),
+        })
+    })
+}
+
+impl State {
+    /// One unbuffered write(2) per event: the process may be aborted at any event.
+    fn log(&mut self, line: String) {
+        if let Some(t) = self.trace.as_mut() {
+            let mut l = line;
+            l.push('\n');
+            let _ = t.write_all(l.as_bytes());
+        }
+    }
+
+    fn next(&mut self) -> u64 {
+        let s = self.seq;
+        self.seq += 1;
+        s
+    }
+
+    /// Crash planned *before* this event?
+    fn crash_before(&mut self, seq: u64, what: &str) {
+        if let Some((at, None)) = self.plan.crash {
+            if at == seq {
+                self.log(format!("{} crash before {}", seq, what));
+                std::process::abort();
+            }
+        }
+    }
+}
+
+fn err(errno: i32) -> io::Error {
+    io::Error::from_raw_os_error(errno)
+}
+
+fn err_str(e: &io::Error) -> String {
+    match e.raw_os_error() {
+        Some(n) => format!("err {}", n),
+        None => format!("err {:?}", e.kind()),
+    }
+}
+
+fn res_str<T: std::fmt::Display>(r: &io::Result<T>) -> String {
+    match r {
+        Ok(v) => format!("ok {}", v),
+        Err(e) => err_str(e),
+    }
+}
+
+fn file_name(path: &Path) -> String {
+    path.file_name()
+        .map(|n| n.to_string_lossy().into_owned())
+        .unwrap_or_default()
+}
+
+pub struct File {
+    inner: std::fs::File,
+    class: Class,
+    name: String,
+    written: u64,
+}
+
+impl File {
+    fn open_impl(path: &Path, create: bool) -> io::Result<File> {
+        let name = file_name(path);
+        let class = Class::of(&name);
+        let mut st = state().lock().unwrap();
+        if !st.active {
+            drop(st);
+            let inner = if create {
+                std::fs::File::create(path)?
+            } else {
+                std::fs::File::open(path)?
+            };
+            return Ok(File {
+                inner,
+                class,
+                name,
+                written: 0,
+            });
+        }
+        let seq = st.next();
+        let op = if create { "create" } else { "open" };
+        st.crash_before(seq, op);
+        let r = (|| {
+            if let Some(f) = st.plan.fails.get(&seq).copied() {
+                return Err(err(f.errno));
+            }
+            if class == Class::Blk && !create {
+                if let Some(max) = st.plan.fdmax {
+                    if st.open_blk >= max {
+                        return Err(err(24)); // EMFILE
+                    }
+                }
+            }
+            if create {
+                std::fs::File::create(path)
+            } else {
+                std::fs::File::open(path)
+            }
+        })();
+        if r.is_ok() && class == Class::Blk {
+            st.open_blk += 1;
+        }
+        let fds = st.open_blk;
+        let rs = match &r {
+            Ok(_) => "ok".to_string(),
+            Err(e) => err_str(e),
+        };
+        st.log(format!(
+            "{} {} {} {} -> {} fds={}",
+            seq,
+            op,
+            class.tag(),
+            name,
+            rs,
+            fds
+        ));
+        drop(st);
+        r.map(|inner| File {
+            inner,
+            class,
+            name,
+            written: 0,
+        })
+    }
+
+    pub fn open<P: AsRef<Path>>(path: P) -> io::Result<File> {
+        File::open_impl(path.as_ref(), false)
+    }
+
+    pub fn create<P: AsRef<Path>>(path: P) -> io::Result<File> {
+        File::open_impl(path.as_ref(), true)
+    }
+}
+
+impl Read for File {
+    fn read(&mut self, buf: &mut [u8]) -> io::Result<usize> {
+        let mut st = state().lock().unwrap();
+        if !st.active {
+            drop(st);
+            return self.inner.read(buf);
+        }
+        let seq = st.next();
+        st.crash_before(seq, "read");
+        let want = buf.len();
+        let mut n = want;
+        match self.class {
+            Class::Blk if !st.plan.chunk_blk.is_empty() => {
+                let c = st.plan.chunk_blk[st.reads_blk % st.plan.chunk_blk.len()];
+                st.reads_blk += 1;
+                n = n.min(c);
+            }
+            Class::Xor if !st.plan.chunk_xor.is_empty() => {
+                let c = st.plan.chunk_xor[st.reads_xor % st.plan.chunk_xor.len()];
+                st.reads_xor += 1;
+                n = n.min(c);
+            }
+            _ => {}
+        }
+        let r = if let Some(f) = st.plan.fails.get(&seq).copied() {
+            Err(err(f.errno))
+        } else {
+            self.inner.read(&mut buf[..n])
+        };
+        st.log(format!(
+            "{} read {} {} want={} cap={} -> {}",
+            seq,
+            self.class.tag(),
+            self.name,
+            want,
+            n,
+            res_str(&r)
+        ));
+        r
+    }
+}
+
+impl Seek for File {
+    fn seek(&mut self, pos: SeekFrom) -> io::Result<u64> {
+        let mut st = state().lock().unwrap();
+        if !st.active {
+            drop(st);
+            return self.inner.seek(pos);
+        }
+        let seq = st.next();
+        st.crash_before(seq, "seek");
+        let r = if let Some(f) = st.plan.fails.get(&seq).copied() {
+            Err(err(f.errno))
+        } else {
+            self.inner.seek(pos)
+        };
+        st.log(format!(
+            "{} seek {} {} to={:?} -> {}",
+            seq,
+            self.class.tag(),
+            self.name,
+            pos,
+            res_str(&r)
+        ));
+        r
+    }
+}
+
+impl Write for File {
+    fn write(&mut self, buf: &[u8]) -> io::Result<usize> {
+        let mut st = state().lock().unwrap();
+        if !st.active {
+            drop(st);
+            return self.inner.write(buf);
+        }
+        let seq = st.next();
+        st.crash_before(seq, "write");
+        let want = buf.len();
+        st.writes += 1;
+        let nth = st.writes;
+
+        // crash after k bytes of this write
+        if let Some((at, Some(k))) = st.plan.crash {
+            if at == seq {
+                let k = (k as usize).min(want);
+                let _ = self.inner.write_all(&buf[..k]);
+                st.log(format!(
+                    "{} crash in write out {} want={} after={}",
+                    seq, self.name, want, k
+                ));
+                std::process::abort();
+            }
+        }
+
+        let r: io::Result<usize> = (|| {
+            if let Some(e) = st.broken.get(&self.name) {
+                return Err(err(*e));
+            }
+            if let Some(f) = st.plan.fails.get(&seq).copied() {
+                st.broken.insert(self.name.clone(), f.errno);
+                let k = (f.after.unwrap_or(0) as usize).min(want);
+                if k == 0 {
+                    return Err(err(f.errno));
+                }
+                self.inner.write_all(&buf[..k])?;
+                self.written += k as u64;
+                return Ok(k);
+            }
+            // cumulative size limit (RLIMIT_FSIZE / full disk): short write, then ENOSPC
+            let base = self.name.trim_end_matches(".tmp");
+            let limit = st
+                .plan
+                .limits
+                .get(base)
+                .or_else(|| st.plan.limits.get(&self.name))
+                .or_else(|| st.plan.limits.get("*"))
+                .copied();
+            let mut n = want;
+            if let Some(l) = limit {
+                let room = l.saturating_sub(self.written) as usize;
+                if room == 0 && want > 0 {
+                    return Err(err(28)); // ENOSPC
+                }
+                n = n.min(room);
+            }
+            if st.plan.weintr >= 2 && nth % st.plan.weintr == 0 {
+                return Err(err(4)); // EINTR
+            }
+            if !st.plan.wshort.is_empty() {
+                let c = st.plan.wshort[(nth as usize) % st.plan.wshort.len()];
+                n = n.min(c);
+            }
+            let w = self.inner.write(&buf[..n])?;
+            self.written += w as u64;
+            Ok(w)
+        })();
+        st.log(format!(
+            "{} write out {} want={} -> {} size={}",
+            seq,
+            self.name,
+            want,
+            res_str(&r),
+            self.written
+        ));
+        r
+    }
+
+    fn flush(&mut self) -> io::Result<()> {
+        self.inner.flush()
+    }
+}
+
+impl Drop for File {
+    fn drop(&mut self) {
+        let mut st = match state().lock() {
+            Ok(s) => s,
+            Err(_) => return,
+        };
+        if !st.active {
+            return;
+        }
+        let seq = st.next();
+        st.crash_before(seq, "close");
+        if self.class == Class::Blk {
+            st.open_blk = st.open_blk.saturating_sub(1);
+        }
+        let fds = st.open_blk;
+        st.log(format!(
+            "{} close {} {} fds={}",
+            seq,
+            self.class.tag(),
+            self.name,
+            fds
+        ));
+    }
+}
+
+/// `fs::rename` under the seam; records the on-disk size of the source at the
+/// instant of the rename.
+pub fn rename<P: AsRef<Path>, Q: AsRef<Path>>(from: P, to: Q) -> io::Result<()> {
+    let mut st = state().lock().unwrap();
+    if !st.active {
+        drop(st);
+        return std::fs::rename(from, to);
+    }
+    let seq = st.next();
+    st.crash_before(seq, "rename");
+    let src_size = std::fs::metadata(from.as_ref())
+        .map(|m| m.len() as i64)
+        .unwrap_or(-1);
+    let r = if let Some(f) = st.plan.fails.get(&seq).copied() {
+        Err(err(f.errno))
+    } else {
+        std::fs::rename(from.as_ref(), to.as_ref())
+    };
+    st.log(format!(
+        "{} rename out {} {} src_size={} -> {}",
+        seq,
+        file_name(from.as_ref()),
+        file_name(to.as_ref()),
+        src_size,
+        match &r {
+            Ok(_) => "ok".to_string(),
+            Err(e) => err_str(e),
+        }
+    ));
+    r
+}
+
+/// Per-run override of a tuning constant.
+pub fn knob(name: &str, default: usize) -> usize {
+    let st = state().lock().unwrap();
+    st.plan.knobs.get(name).copied().unwrap_or(default)
+}
+
+/// Marks the start of work on a block height (trace only).
+pub fn mark(height: u64) {
+    let mut st = state().lock().unwrap();
+    if !st.active {
+        return;
+    }
+    let seq = st.next();
+    st.crash_before(seq, "height");
+    st.log(format!("{} height {}", seq, height));
+}
+
+fn mix(mut x: u64) -> u64 {
+    x ^= x >> 33;
+    x = x.wrapping_mul(0xff51afd7ed558ccd);
+    x ^= x >> 33;
+    x = x.wrapping_mul(0xc4ceb9fe1a85ec53);
+    x ^= x >> 33;
+    x
+}
+
+/// Delay point inside the rayon closures. The delay is a pure function of
+/// (plan, site, key); called from worker threads, never traced.
+pub fn par_point(site: u32, key: u64) {
+    static DELAY: OnceLock<Option<(String, u64, u64)>> = OnceLock::new();
+    let d = DELAY.get_or_init(|| state().lock().unwrap().plan.delay.clone());
+    let (mode, seed, unit) = match d {
+        Some(d) => (d.0.as_str(), d.1, d.2),
+        None => return,
+    };
+    let h = mix(seed ^ mix(key ^ ((site as u64) << 56)));
+    let ticks = match mode {
+        "none" => 0,
+        "asc" => key % 32,
+        "desc" => 31 - (key % 32),
+        "random" => h % 16,
+        "straggler" => {
+            if h % 8 == 0 {
+                40
+            } else {
+                0
+            }
+        }
+        _ => 0,
+    };
+    if ticks > 0 && unit > 0 {
+        std::thread::sleep(std::time::Duration::from_micros(ticks * unit));
+    }
+}
